@@ -18,6 +18,7 @@ import (
 	"encoding/hex"
 	"fmt"
 	"os"
+	"sort"
 	"strings"
 
 	"verif.local/kit"
@@ -89,16 +90,13 @@ func c31Pool(v uint64, mode RunMode) []OpSpec {
 		return c31OpPool[v][mi]
 	}
 	var pool []OpSpec
-	for _, spec := range OpcodesByVersion(v) {
-		if c31SkipGeneric[spec.Name] || spec.Modes&mode == 0 {
-			continue
-		}
-		s, ok := OpsByName[v][spec.Name] // the spec in force for this version
-		if !ok {
+	for _, s := range OpsByName[v] { // the spec in force for this version
+		if c31SkipGeneric[s.Name] || s.Modes&mode == 0 {
 			continue
 		}
 		pool = append(pool, s)
 	}
+	sort.Slice(pool, func(i, j int) bool { return pool[i].Name < pool[j].Name }) // map order is random: keep cases reproducible
 	c31OpPool[v][mi] = pool
 	return pool
 }
@@ -920,11 +918,14 @@ func (b *c31Builder) generic(s *OpSpec, given int) bool {
 // itxnField pushes a value of the field's type and sets it on the inner transaction under construction
 func (b *c31Builder) itxnField() {
 	r := b.r
-	var cands []txnFieldSpec
-	for _, fs := range txnFieldSpecs {
-		if fs.itxVersion != 0 && fs.itxVersion <= b.v {
-			cands = append(cands, fs)
+	cands := c31ItxnFields[b.v]
+	if cands == nil {
+		for i := range txnFieldSpecs {
+			if fs := &txnFieldSpecs[i]; fs.itxVersion != 0 && fs.itxVersion <= b.v {
+				cands = append(cands, fs)
+			}
 		}
+		c31ItxnFields[b.v] = cands
 	}
 	if len(cands) == 0 {
 		return
@@ -953,6 +954,8 @@ func (b *c31Builder) itxnField() {
 	b.op("itxn_field", byte(fs.field))
 	b.pop(1)
 }
+
+var c31ItxnFields [LogicVersion + 1][]*txnFieldSpec
 
 func c31TinyProgram(r *kit.Rand, v uint64) []byte {
 	pv := v
@@ -1544,12 +1547,12 @@ done: retsub`},
 add: proto 2 1; frame_dig -1; frame_dig -2; +; dup; frame_bury 0; retsub`},
 	{5, false, `byte "hello world"; dup; concat; dup; len; int 22; ==; assert
 extract 3 5; byte "lo wo"; ==; assert
-byte 0x0102030405060708; dup; extract_uint32 2; int 0x03040506; ==; assert
+byte 0x0102030405060708; dup; int 2; extract_uint32; int 0x03040506; ==; assert
 int 1; int 9; setbyte; int 1; getbyte; int 9; ==; assert
 byte 0xffff; byte 0x01; b+; byte 0x010000; b==; assert
 int 7; itob; btoi; int 7; ==`},
 	{2, false, `txn Sender; len; int 32; ==; txn Fee; int 1337; ==; &&; txn Note; byte "fnord"; ==; &&; global MinTxnFee; int 1001; ==; &&; gtxn 0 Amount; int 1000000; ==; &&; arg 0; len; int 0; >=; &&`},
-	{3, false, `int 5; int 6; int 7; dig 2; swap; select; pushbytes 0x00ff; int 9; getbit; +; int 1; >=`},
+	{3, false, `int 5; int 6; int 7; dig 2; swap; select; pushbytes 0x00ff; int 9; getbit; +; +; int 1; >=`},
 	{7, false, `byte "{\"a\":1,\"b\":\"x\",\"c\":{\"d\":2}}"; dup; byte "a"; json_ref JSONUint64; int 1; ==; assert
 dup; byte "c"; json_ref JSONObject; byte "d"; json_ref JSONUint64; int 2; ==; assert
 byte "b"; json_ref JSONString; byte "x"; ==; assert
@@ -1561,13 +1564,13 @@ c: byte "x"; byte "y"; byte "z"; byte "z"; match d e f; err
 d: err
 e: err
 f: pushints 1 2 3; popn 2; pushbytess "aa" "bb"; concat; len; int 4; ==; &&`},
-	{5, false, `byte 0x0102; sha256; keccak256; sha512_256; len; int 32; ==; assert
+	{6, false, `byte 0x0102; sha256; keccak256; sha512_256; len; int 32; ==; assert
 byte 0x01; dup; concat; dup; concat; dup; concat; dup; concat; dup; concat; dup; concat; len; int 64; ==; assert
 int 1; int 2; mulw; pop; pop; int 1; int 0; int 3; int 1; divmodw; pop; pop; pop; pop
 int 2; int 10; exp; int 1024; ==; int 2; int 100; expw; pop; pop; byte 0x10; bsqrt; byte 0x04; b==; &&`},
 	{10, false, `byte 0x0000000000000000000000000000000000000000000000000000000000000001; ec_map_to BN254g1; dup; ec_subgroup_check BN254g1; assert
 dup; ec_add BN254g1; byte 0x02; ec_scalar_mul BN254g1; len; int 64; ==`},
-	{2, true, `byte "k"; int 5; app_global_put; byte "k"; app_global_get; int 5; ==; assert
+	{3, true, `byte "k"; int 5; app_global_put; byte "k"; app_global_get; int 5; ==; assert
 int 0; byte "l"; byte "v"; app_local_put; int 0; int 0; byte "l"; app_local_get_ex; assert; byte "v"; ==; assert
 byte "k"; app_global_del; int 0; balance; int 0; >`},
 	{5, true, `byte "a log"; log; itxn_begin; int pay; itxn_field TypeEnum; int 5; itxn_field Amount; txn Sender; itxn_field Receiver; itxn_submit
@@ -1577,11 +1580,25 @@ gitxn 1 Amount; int 0; ==; global OpcodeBudget; int 0; >; &&`},
 	{8, true, `byte "self"; int 24; box_create; pop; byte "self"; int 2; byte 0xaabb; box_replace; byte "self"; int 0; int 8; box_extract; len; int 8; ==; assert
 byte "other"; box_len; assert; int 50; ==; assert; byte "other"; box_get; assert; len; int 50; ==; assert
 byte "self"; box_del`},
-	{4, true, `int 0; gload 0 0; pop; int 1; int 0; gaid 0; pop; int 888; app_params_get AppCreator; pop; pop; int 55; asset_params_get AssetTotal; pop; pop; int 1`},
+	{6, true, `itxn_begin; int appl; itxn_field TypeEnum; int 56; itxn_field ApplicationID; byte "arg0"; itxn_field ApplicationArgs; byte "arg1"; itxn_field ApplicationArgs; itxn_submit
+itxna ApplicationArgs 1; byte "arg1"; ==; assert; gitxna 0 ApplicationArgs 0; len; int 4; ==; assert
+int 0; itxnas ApplicationArgs; pop; int 1; gitxnas 0 ApplicationArgs; pop; itxn NumAppArgs; int 2; ==`},
+	{6, true, `gaid 0; pop; int 0; gaids; pop; int 0; int 1; gloadss; pop; int 0; gloads 1; pop; gload 0 0; pop; int 0; gtxnsa ApplicationArgs 0; pop; int 0; txnas ApplicationArgs; pop; int 0; gtxnas 0 ApplicationArgs; pop; int 0; int 0; gtxnsas ApplicationArgs; pop; int 1`},
+	{13, true, `int 56; byte "self"; app_box_len; pop; pop; int 56; byte "self"; app_box_get; pop; pop; int 56; byte "self"; int 0; int 4; app_box_extract; pop
+int 56; byte "self"; int 1; byte 0x77; app_box_replace; int 56; byte "self"; byte 0x00010203040506070809; app_box_put
+int 56; byte "self"; int 1; int 2; byte 0x5566; app_box_splice; int 56; byte "self"; int 12; app_box_resize; int 56; byte "fresh"; int 8; app_box_create; pop
+int 56; byte "fresh"; app_box_del; pop; int 1`},
+	{10, true, `byte "self"; int 24; box_create; pop; byte "self"; int 2; int 3; byte 0x11223344; box_splice; byte "self"; int 20; box_resize; byte "other"; byte "01234567890123456789012345678901234567890123456789"; box_put; int 1`},
+	{5, true, `int 0; int 55; asset_holding_get AssetBalance; pop; pop; int 0; int 888; app_opted_in; pop; int 0; byte "lu"; app_local_get; pop; txn Sender; acct_params_get AcctBalance; pop; pop; int 1`},
+	{5, false, `byte 0x02a1b1c1d1e1f101112131415161718191a1b1c1d1e1f101112131415161718191; ecdsa_pk_decompress Secp256k1; pop; pop; int 1`},
+	{13, false, `byte 0x0000000000000000000000000000000000000000000000000000000000000001; dup; concat; poseidon2 BN254t2; len; int 32; ==
+byte 0x0000000000000000000000000000000000000000000000000000000000000001; ec_map_to BN254g1; byte 0x0000000000000000000000000000000000000000000000000000000000000002; ec_multi_scalar_mul BN254g1; len; int 64; ==; &&`},
+	{5, true, `int 0; gload 0 0; pop; int 1; int 0; gaid 0; pop; int 888; app_params_get AppCreator; pop; pop; int 55; asset_params_get AssetTotal; pop; pop; int 1`},
 }
 
 type c31Corpus struct {
 	progs [][]byte
+	app   []bool // written for application mode
 }
 
 var c31TheCorpus *c31Corpus
@@ -1595,6 +1612,7 @@ func c31GetCorpus(st *c31Stats) *c31Corpus {
 		if h, ok := compiled[v]; ok {
 			if p, err := hex.DecodeString(h); err == nil {
 				co.progs = append(co.progs, p)
+				co.app = append(co.app, false)
 			}
 		}
 	}
@@ -1607,11 +1625,12 @@ func c31GetCorpus(st *c31Stats) *c31Corpus {
 			if err != nil {
 				st.Counters["corpus_assembly_failures"]++
 				if os.Getenv("VERIF_C31_DEBUG") != "" {
-					fmt.Printf("corpus source %.30q v%d: %v\n", s.src, v, err)
+					fmt.Printf("corpus source %.30q v%d: %v %v\n", s.src, v, err, ops.Errors)
 				}
 				continue
 			}
 			co.progs = append(co.progs, ops.Program)
+			co.app = append(co.app, s.app)
 		}
 	}
 	st.Counters["corpus_programs"] = int64(len(co.progs))
